@@ -1271,20 +1271,22 @@ class Model:
                     b = bf(0, constants, parameters)
 
                     # Replace veccat'ed states with brand new state vectors so as to avoid the value copy operations induced by veccat.
-                    self._states_vector = ca.MX.sym(
-                        "states_vector", sum([s.numel() for s in self._symbols(self.states)])
-                    )
-                    self._der_states_vector = ca.MX.sym(
-                        "der_states_vector",
-                        sum([s.numel() for s in self._symbols(self.der_states)]),
-                    )
-                    self._alg_states_vector = ca.MX.sym(
-                        "alg_states_vector",
-                        sum([s.numel() for s in self._symbols(self.alg_states)]),
-                    )
-                    self._inputs_vector = ca.MX.sym(
-                        "inputs_vector", sum([s.numel() for s in self._symbols(self.inputs)])
-                    )
+                    # The same vectors must be used for the equations and the initial equations.
+                    if equation_list == "equations" or not hasattr(self, "_states_vector"):
+                        self._states_vector = ca.MX.sym(
+                            "states_vector", sum([s.numel() for s in self._symbols(self.states)])
+                        )
+                        self._der_states_vector = ca.MX.sym(
+                            "der_states_vector",
+                            sum([s.numel() for s in self._symbols(self.der_states)]),
+                        )
+                        self._alg_states_vector = ca.MX.sym(
+                            "alg_states_vector",
+                            sum([s.numel() for s in self._symbols(self.alg_states)]),
+                        )
+                        self._inputs_vector = ca.MX.sym(
+                            "inputs_vector", sum([s.numel() for s in self._symbols(self.inputs)])
+                        )
 
                     states_vector = ca.vertcat(
                         self._states_vector,
